@@ -232,7 +232,7 @@ pub fn def(tier: Tier) -> CheckDef {
             "'keeps running' is observed as 'no value after 20 000 (quick) / 60 000 (thorough) steps'",
             "three recorded findings are matched by signature on the blocking redex: a group variable whose definition is a syntactic value (later value definition), an unresolved hole, and a wrong-kind redex in a program during whose checking `open` copied an unresolved hole (hook counter)",
         ],
-        idle_limit_s: 180,
+        idle_limit_s: 60,
         needs_cli: false,
         fuzz: None,
         parts: vec![
